@@ -23,6 +23,10 @@ def run(ctx, rep):
         threading(prog, rep, tag)
         tables(prog, rep, tag)
         guards(prog, rep, tag)
+    if ctx.tier == "thorough":
+        from .. import witness
+
+        witness.run(ctx, rep, "C08", "C08")
 
 
 def group_fmmus(prog, rep, tag):
